@@ -126,6 +126,10 @@ def o_text_pieces(case, lines):
     xs = [unhex(r[2]).decode("utf-8") for r in sec(lines, "X")]
     exp = m["expect_text"]
     want = [exp] if exp != "" else []
+    if exp == "" and xs == [""] and "<![CDATA[" in m.get("src", ""):
+        # a run whose only content is empty CDATA sections: an empty Text node is accepted
+        # (the statement speaks about the decoding of the run, which is empty either way)
+        xs = []
     if xs != want:
         return "text nodes %r, expected %r" % (xs, want)
     return o_wf_tree(case, lines)
@@ -420,6 +424,17 @@ def o_ranges(case, lines):
             s, e = rng[i]
             if data[s:e] != b"<!--" + unhex(r[2]) + b"-->":
                 return "comment %d: slice is not '<!--' text '-->'" % i
+    # a borrowed text value equals its slice, or the CDATA section around it
+    for r in sec(lines, "B"):
+        if len(r) >= 6 and r[2] == "text" and r[3] == "B" and r[1].isdigit():
+            i = int(r[1])
+            if i in rng and nodes.get(i, [None, None, None])[2] == "T":
+                off, ln = int(r[4]), int(r[5])
+                s2, e2 = rng[i]
+                val = data[off:off + ln] if off >= 0 else None
+                sl = data[s2:e2]
+                if val is not None and not (sl == val or sl == b"<![CDATA[" + val + b"]]>"):
+                    return "text node %d: borrowed value %r is neither its slice %r nor the CDATA section in it" % (i, val[:30], sl[:40])
     for r in sec(lines, "PA"):
         i, k = int(r[1]), int(r[2])
         s, e, qs, qe, vs, ve = [int(x) for x in r[3:9]]
